@@ -11,6 +11,11 @@ from pgpy.errors import PGPError, PGPDecryptionError
 warnings.simplefilter('ignore')
 
 
+# ---------------------------------------------------------------------------- RFC 4880 9.2 / RFC 5581: key and block sizes in octets, by cipher id (independent of PGPy's tables)
+RFC_KEY_OCTETS = {1: 16, 2: 24, 3: 16, 4: 16, 7: 16, 8: 24, 9: 32, 10: 32, 11: 16, 12: 24, 13: 32}
+RFC_BLOCK_OCTETS = {1: 8, 2: 8, 3: 8, 4: 8, 7: 16, 8: 16, 9: 16, 10: 16, 11: 16, 12: 16, 13: 16}
+
+
 # ---------------------------------------------------------------------------- SHA-1 stand-in (packets.py: MDC)
 def inj_digest(data, size=20):
     """collision-free on inputs of at most size-1 octets (the input itself, padded, plus its length) and among inputs of exactly size octets; beyond that a function of
